@@ -71,7 +71,7 @@ func anyPreState0(hasDoc bool) *protocol.ResolutionModel {
 
 // otherSigner: a different key pair that claims key's public JWK.
 func otherSigner(key *gen.Signer) *gen.Signer {
-	o := gen.NewSigner("other")
+	o := gen.NewSignerKind("other", keyKind)
 	verifrt.Assume(o.JWK.X != key.JWK.X || o.JWK.Y != key.JWK.Y)
 	o.JWK = key.JWK
 	return o
@@ -162,7 +162,7 @@ func buildCase(typ operation.Type, tamper int, code uint, suffix string) *stepCa
 		if tamper == tSuffixMismatch {
 			return nil
 		}
-		key := gen.NewSigner("upd")
+		key := gen.NewSignerKind("upd", keyKind)
 		signer := key
 		if tamper == tWrongSigner {
 			signer = otherSigner(key)
@@ -182,7 +182,7 @@ func buildCase(typ operation.Type, tamper int, code uint, suffix string) *stepCa
 		if tamper == tSuffixMismatch {
 			return nil
 		}
-		key := gen.NewSigner("rec")
+		key := gen.NewSignerKind("rec", keyKind)
 		signer := key
 		if tamper == tWrongSigner {
 			signer = otherSigner(key)
@@ -209,7 +209,7 @@ func buildCase(typ operation.Type, tamper int, code uint, suffix string) *stepCa
 		case tDeltaSubstituted, tDeltaInvalid, tInapplicable:
 			return nil
 		}
-		key := gen.NewSigner("rec")
+		key := gen.NewSignerKind("rec", keyKind)
 		signer := key
 		if tamper == tWrongSigner {
 			signer = otherSigner(key)
@@ -383,6 +383,22 @@ func applierStep(typeChoices []operation.Type, tampers []int) {
 			verifrt.SameObject(res.EquivalentReferences, rm.EquivalentReferences) && res.CreatedTime == rm.CreatedTime && res.UpdatedTime == op.TransactionTime,
 			"deactivate keeps anchor origin, references and created time, sets updated time")
 	}
+}
+
+// keyKind: signing-key type used by the step harness (0 P-256, 1 secp256k1, 2 Ed25519)
+var keyKind = 0
+
+// HarnessT_C01_StepOtherKeys: the same step for secp256k1 and Ed25519 signing keys.
+func HarnessT_C01_StepOtherKeys() {
+	keyKind = 1 + verifrt.Choose("key-kind", 2)
+	applierStep([]operation.Type{operation.TypeUpdate, operation.TypeRecover, operation.TypeDeactivate}, []int{tNone, tWrongSigner, tDeltaSubstituted, tInapplicable})
+}
+
+// HarnessT_C02_TamperOtherKeys: tampering classes for secp256k1 and Ed25519 signing keys.
+func HarnessT_C02_TamperOtherKeys() {
+	keyKind = 1 + verifrt.Choose("key-kind", 2)
+	applierStep([]operation.Type{operation.TypeUpdate, operation.TypeRecover, operation.TypeDeactivate},
+		[]int{tNone, tWrongSigner, tPayloadChanged, tRevealMismatch, tExtraHeader, tAlgNotAllowed, tTruncated, tSigPadded, tSigTruncated, tSigBitFlip})
 }
 
 var allTypes = []operation.Type{operation.TypeCreate, operation.TypeUpdate, operation.TypeRecover, operation.TypeDeactivate, "other"}
